@@ -4,6 +4,7 @@ import (
 	"fmt"
 	"go/token"
 	"go/types"
+	"reflect"
 	"sort"
 
 	"osmcheck/core"
@@ -18,13 +19,13 @@ func init() {
 		ID:    "C04",
 		Title: "XML marshal/unmarshal round-trips every object and container",
 		Explanation: "Structural necessary conditions on every hand-written XML writer of package osm (every MarshalXML method with everything it calls, explored path by path by an abstract interpreter under fixed abstract inputs; helper names, parameter and local names, statement order of independent statements, if/switch form and the file the code lives in do not matter): " +
-			"(X1) with every field set, for each Encode / EncodeElement call the element name encoding/xml will emit — computed by the naming model: start element given, else XMLName tag, else enclosing field tag, else the Go type name — equals the tag under which the receiver field being encoded is read back; the wrapper elements open around it are exactly the tags of the fields on the way to it (create/modify/delete, old/new); a forced document root name is the documented one; every start token is closed by an end token of the same name; " +
+			"(X1) with every field set, for each Encode / EncodeElement call the element name encoding/xml will emit — computed by the naming model: start element given, else XMLName tag, else enclosing field tag, else the Go type name — equals the tag under which the receiver field being encoded is read back; the wrapper elements open around it are exactly the tags of the fields on the way to it (create/modify/delete, old/new); a forced document root name is the documented one; every start token is closed by an end token of the same name; a MarshalXML that hands the whole value to the tag-driven encoding as a method-less type with the same fields and tags (`type plain T; e.EncodeElement(plain(v), start)`) is modelled as that encoding, judged for every name it can be handed (the tag of every tag-marshalled holder must be kept; other tags or the type itself are violations); every type that is marshalled on its own - the documents OSM, Change, Diff and the element types of osm.OSM's element fields, Bounds included - gets its element name of tables/osmxml.json when it is encoded without an enclosing element (XMLName, or else the Go type name unless MarshalXML renames it: `<Bounds>` is a violation); " +
 			"(X2) each attr-tagged field of a type with a hand-written MarshalXML appears in the start token's attribute list under its tag name with the field's value: with every field set, with only that field set (so its guard tests that field and nothing else), and with only that field empty exactly when the tag does not say omitempty; no attribute is written that no field reads; " +
-			"(X3) completeness: for every element-tagged field of the marshalled type (and, for fields written as a wrapped OSM body, every element-tagged field of osm.OSM below it), when only that field is set it is encoded on every path; the elements Action writes directly are exactly the kinds Action.UnmarshalXML stores back; " +
+			"(X3) completeness: for every element-tagged field of the marshalled type (and, for fields written as a wrapped OSM body, every element-tagged field of osm.OSM below it), when only that field is set it is encoded on every path; the elements Action writes directly are exactly the kinds Action.UnmarshalXML stores back, accumulating (a decoder that replaces the body per child loses all but the last, C03.T4); " +
 			"(X4) Action.MarshalXML and Action.UnmarshalXML agree on {type attribute, old, new}; marshalling an action whose directly embedded element is nil touches nothing through the nil pointer; " +
-			"(X5) Date is written as text with the layout it is parsed with; " +
+			"(X5) Date is written as text with a layout its reader parses (equal, or with a fractional-seconds field after the seconds, which time.Parse accepts without the layout naming it) that keeps nanoseconds; " +
 			"(X6) an element is left out only when its value is absent: whenever a single field of the value is set the element's own start token (the wrapper of a block, the element of a type with MarshalXML) is written on every path, and a nil block writes nothing and dereferences nothing. " +
-			"(X8) a time formatted by hand and handed to the encoder (found by type: (time.Time).Format / AppendFormat results that reach an Encoder call, through whatever constant, local or helper) uses the layout the reader parses: the type's own UnmarshalXML with the same layout (osm.Date, the OSM notes format), otherwise time.Time's own unmarshaler, i.e. RFC 3339 with nanoseconds - a layout without fractional seconds drops them; every other time of the package (created_at, closed_at, timestamp, date attributes) is a time.Time written by encoding/xml itself through MarshalText. " +
+			"(X8) a time formatted by hand and handed to the encoder (found by type: (time.Time).Format / AppendFormat results that reach an Encoder call, through whatever constant, local or helper) uses a layout the reader parses and keeps the sub-second part: with the type's own UnmarshalXML (osm.Date, the OSM notes format) the reader's layout plus a nanosecond fractional-seconds field right after the seconds (time.Parse reads it although the layout does not name it; a writer without it, or with a shorter one, drops what the reader would read back), otherwise time.Time's own unmarshaler, i.e. RFC 3339 with nanoseconds - a layout without fractional seconds drops them; every other time of the package (created_at, closed_at, timestamp, date attributes) is a time.Time written by encoding/xml itself through MarshalText. " +
 			"Types without a hand-written marshaller are written and read by the same tags and are symmetric by construction of encoding/xml (tag well-formedness is C03.T1). " +
 			"NOT decided: equality of values after the trip (time precision, float formatting, strings XML cannot represent), diff create actions holding several elements, allocated-but-empty containers.",
 		Assumptions: []string{"go/types (x/tools v0.29.0)", "documented naming rules of encoding/xml marshalValue/defaultStart (re-implemented in rules/c03_xmlmodel.go)", "the path-enumerating abstract interpreter of rules/c03_eval.go (one iteration per loop, lists built on the path and counted loops unrolled, closures / deferred calls / pointers to fields / unexported dispatch tables followed, calls outside the repository opaque, goroutines / goto / generic functions / unknown call targets make the exploration undecided; Encoder calls are assumed to succeed)", "tables/osmxml.json for document root names"},
@@ -33,17 +34,17 @@ func init() {
 		Technique:   "abstract interpretation of the hand-written marshallers over a finite set of scenarios (which fields are empty), observing the Encoder calls with symbolic arguments; type-resolved model of encoding/xml element naming applied to each observed call; sibling agreement between marshal and unmarshal observations",
 		DesignRef:   "DESIGN.md §5 C04, §3.3",
 		Rules: []*core.Rule{
-			{ID: "X1", Floor: 18, Doc: "emitted element name = name read back for every encoded field; wrappers = tags of the enclosing fields; roots named and closed (5 roots + 8 fields + 5 blocks)", Run: c04X1},
-			{ID: "X2", Floor: 11, Doc: "attributes written under their tag names, from their fields, guarded by their own emptiness iff omitempty (11 attr-tagged fields)", Run: c04X2},
+			{ID: "X1", Floor: 30, Doc: "emitted element name = name read back for every encoded field; wrappers = tags of the enclosing fields; roots named and closed (5 roots + 8 fields + 5 blocks); delegation to the tag-driven encoding (Bounds: 2); 10 types marshalled on their own get their element name", Run: c04X1},
+			{ID: "X2", Floor: 15, Doc: "attributes written under their tag names, from their fields, guarded by their own emptiness iff omitempty (11 attr-tagged fields written by hand + 4 of Bounds through delegation)", Run: c04X2},
 			{ID: "X3", Floor: 50, Doc: "completeness: every element field is encoded when it alone is set (8 direct + 35 in wrapped bodies + 7 kinds of the embedded action element)", Run: c04X3},
 			{ID: "X4", Floor: 4, Doc: "Action marshal/unmarshal symmetry on type, old, new, embedded element", Run: c04X4},
-			{ID: "X5", Floor: 2, Doc: "Date: one layout both ways, written and read as text", Run: c04X5},
+			{ID: "X5", Floor: 2, Doc: "Date: the reader parses what the writer formats, nanoseconds kept, written and read as text", Run: c04X5},
 			{ID: "X6", Floor: 14, Doc: "an element is skipped only when its value is absent; a nil block writes and dereferences nothing (4 roots + 5 blocks written, 5 blocks absent)", Run: c04X6},
 			{ID: "X7", Floor: 3, Doc: "every XML marshaler (MarshalXML / MarshalXMLAttr / MarshalText) of the package has a value receiver, so that it is in the method set of T and *T and a value that is not addressable is still written in the documented form (5 today)", Run: c04X7},
 			{ID: "X8", Floor: 1, Doc: "a time formatted by hand in an XML writer uses a layout its reader parses: the type's own UnmarshalXML with the same layout, else time.Time's unmarshaler, i.e. RFC 3339 with nanoseconds (Date.MarshalXML)", Run: c04X8},
 		},
-		Mutants: append(append([]core.Mutant{}, append(append(append(append([]core.Mutant{}, c04Mutants...), c04Mutants2...), append(append([]core.Mutant{}, c04TimeMutants...), append(append([]core.Mutant{}, c04Mutants3...), c04Mutants4...)...)...), core.Mutant{Name: "x7-date-marshalxml-pointer-receiver", File: "note.go", Find: "func (d Date) MarshalXML(", Replace: "func (d *Date) MarshalXML(", ExpectRule: "X7", ExpectConstruct: "receiver@Date.MarshalXML"})...), c04Mutants5...),
-		Benign:  append(append([]core.Mutant{}, append(append(append([]core.Mutant{}, c04Benign...), c04Benign2...), append(append([]core.Mutant{}, c04Benign3...), c04Benign4...)...)...), c04Benign5...),
+		Mutants: append(append([]core.Mutant{}, append(append(append(append([]core.Mutant{}, c04Mutants...), c04Mutants2...), append(append([]core.Mutant{}, c04TimeMutants...), append(append([]core.Mutant{}, c04Mutants3...), append(append([]core.Mutant{}, c04Mutants4...), c04BoundsMutants...)...)...)...), core.Mutant{Name: "x7-date-marshalxml-pointer-receiver", File: "note.go", Find: "func (d Date) MarshalXML(", Replace: "func (d *Date) MarshalXML(", ExpectRule: "X7", ExpectConstruct: "receiver@Date.MarshalXML"})...), c04Mutants5...),
+		Benign:  append(append([]core.Mutant{}, append(append(append([]core.Mutant{}, c04Benign...), c04Benign2...), append(append([]core.Mutant{}, c04Benign3...), append(append([]core.Mutant{}, c04Benign4...), c04BoundsBenign...)...)...)...), c04Benign5...),
 	})
 }
 
@@ -69,8 +70,8 @@ func c04FieldsOfType(p *core.Program, t types.Type) []string {
 			continue
 		}
 		ti := c03XMLTypeInfo(tn.Type())
-		if ti == nil || c03Implements(p, tn.Type(), "encoding/xml", "Marshaler") != "" {
-			continue
+		if ti == nil || c03Implements(p, tn.Type(), "encoding/xml", "Marshaler") != "" || !c04HasXMLTags(tn.Type()) {
+			continue // a struct without a single xml tag (a JSON shim, an internal record) is no XML holder
 		}
 		for _, f := range ti.Fields {
 			if f.Kind == c03Elem && len(f.Via) == 0 && types.Identical(c03ElemType(f.Var.Type()), c03Deref(t)) {
@@ -180,4 +181,18 @@ func c04MissPos(tr *c04Trace, fallback token.Pos) token.Pos {
 		return tr.path.Pos
 	}
 	return fallback
+}
+
+// c04HasXMLTags: the struct type names an xml key for at least one of its fields.
+func c04HasXMLTags(t types.Type) bool {
+	st, ok := t.Underlying().(*types.Struct)
+	if !ok {
+		return false
+	}
+	for i := 0; i < st.NumFields(); i++ {
+		if _, has := reflect.StructTag(st.Tag(i)).Lookup("xml"); has {
+			return true
+		}
+	}
+	return false
 }
